@@ -73,22 +73,33 @@ Proof.
   destruct (sg fs); lia.
 Qed.
 
-(* the main conversion theorem.  The float-vdtype Fxp-input route with a positive shift is
-   covered when the rescaled codes stay below 2^53 (always the case unless the value
-   overflows the destination). *)
-Definition vd_ok (rt : croute) (shift : Z) (codes : list Z) : Prop :=
-  match rt with
-  | RFxpInput VFloat => 0 <= shift -> Forall (fun c => Z.abs c * 2^shift < 2^53) codes
-  | _ => True end.
+(* the main conversion theorem, for every route class and every value type of the source (integers of
+   more than 53 bits are never cast to a float value type: set_val switches to Python integers) *)
+Lemma obj_path_AI64_float_big f l : existsb (fun z => 2^53 <=? Z.abs z) l = true -> obj_path f true (AI64 l) VFloat = true.
+Proof.
+  intros H. unfold obj_path, conv_factor_int. cbn [arr_is_int vdt_is_int negb andb]. rewrite absmax_AI64, H.
+  rewrite !orb_true_r. reflexivity.
+Qed.
+Lemma obj_path_AObj_big f l vd : existsb (fun z => 2^63 <=? Z.abs z) l = true -> obj_path f true (AObj (map NI l)) vd = true.
+Proof.
+  intros H. unfold obj_path, conv_factor_int.
+  assert (Hi: arr_is_int (AObj (map NI l)) = true).
+  { cbn [arr_is_int]. rewrite forallb_forall. intros x Hx. apply in_map_iff in Hx. destruct Hx as (z & <- & _). reflexivity. }
+  rewrite Hi. cbn [andb].
+  assert (He: existsb (fun x => 2^63 <=? num_abs_int x * 1) (map NI l) = true).
+  { rewrite existsb_map. apply existsb_exists in H. destruct H as (z & Hin & Hz). apply existsb_exists. exists z. split; [exact Hin|].
+    unfold num_abs_int. cbn [num_int]. lia. }
+  rewrite He. rewrite !orb_true_r. reflexivity.
+Qed.
 
 Theorem convert_core rt fs fd r o codes :
-  core_fmt fs -> core_fmt fd -> Forall (in_range fs) codes -> vd_ok rt (nf fd - nf fs) codes ->
+  core_fmt fs -> core_fmt fd -> Forall (in_range fs) codes ->
   exists w, convert rt fs codes fd r o = Ok w /\
     w_codes w = map (conv_spec fs fd r o) codes /\
     w_ovf w = existsb (fun c => ovf_cond fd r (val_of_code fs c)) codes /\
     w_unf w = existsb (fun c => unf_cond fd r (val_of_code fs c)) codes.
 Proof.
-  intros Hfs Hfd Hr Hvd. unfold convert. set (shift := nf fd - nf fs) in *.
+  intros Hfs Hfd Hr. unfold convert. set (shift := nf fd - nf fs) in *.
   assert (Hb: Forall (fun c => Z.abs c < 2^52) codes).
   { eapply Forall_impl; [|exact Hr]. intros c Hc. apply (src_code_bound fs c Hfs Hc). }
   assert (Hshift: -68 <= shift <= 68) by (unfold shift; destruct Hfs as (? & ?), Hfd as (? & ?); lia).
@@ -102,13 +113,12 @@ Proof.
     assert (Hrd: forall c, round_dy r {| dm := c; de := shift |} = c * 2^shift) by (intros; apply round_dy_int; lia).
     destruct (existsb (fun c => 2^63 <=? Z.abs c * 2^shift) codes) eqn:Ebig.
     + (* Python integers *)
-      unfold set_val_real.
-      assert (Hobj: obj_path fd true (AObj (map (fun c => NI (c * 2^shift)) codes)) = true).
-      { unfold obj_path, conv_factor_int. cbn [arr_nums]. apply orb_true_iff. right.
-        replace (2^63 <=? 1) with false by reflexivity. cbn [orb]. rewrite existsb_map.
+      assert (Hobj: obj_path fd true (AObj (map (fun c => NI (c * 2^shift)) codes)) (conv_vdt rt shift) = true).
+      { change (map (fun c => NI (c * 2^shift)) codes) with (map (fun c => NI ((fun c => c * 2^shift) c)) codes).
+        rewrite <- (map_map (fun c => c * 2^shift) NI). apply obj_path_AObj_big. rewrite existsb_map.
         apply existsb_exists in Ebig. destruct Ebig as (c & Hin & Hc). apply existsb_exists. exists c. split; [exact Hin|].
-        unfold num_abs_int. cbn [num_int]. rewrite Z.abs_mul, (Z.abs_eq (2^shift)) by (apply Z.pow_nonneg; lia). lia. }
-      rewrite Hobj. cbn [arr_nums bind].
+        rewrite Z.abs_mul, (Z.abs_eq (2^shift)) by (apply Z.pow_nonneg; lia). lia. }
+      rewrite (set_val_real_eq _ _ _ _ _ _ _ Hobj (exact_factor_raw _ _)). cbn [arr_nums bind].
       destruct (mapM_char (elem_pipe fd r o true true) (fun x => overflow o fd (match x with NI z => z | _ => 0 end))
                  (fun x => cmax fd <? (match x with NI z => z | _ => 0 end)) (fun x => (match x with NI z => z | _ => 0 end) <? cmin fd)
                  (map (fun c => NI (c * 2^shift)) codes)) as (rs & Hrs & Hc & Hg & Hl).
@@ -123,19 +133,22 @@ Proof.
       { apply Forall_forall. intros c Hin. destruct (2^63 <=? Z.abs c * 2^shift) eqn:E; [|lia].
         exfalso. assert (existsb (fun c => 2^63 <=? Z.abs c * 2^shift) codes = true) by (apply existsb_exists; exists c; auto). congruence. }
       set (xs := map (fun c => c * 2^shift) codes).
-      unfold set_val_real.
-      assert (Hobj: obj_path fd true (AI64 xs) = false).
-      { unfold obj_path, conv_factor_int. cbn [arr_nums]. unfold xs. rewrite map_map, existsb_map.
+      assert (2^63 < 2^64) by (apply pow2_lt; lia).
+      assert (Hxs: Forall (fun z => Z.abs z < 2^63) xs).
+      { unfold xs. rewrite Forall_map. eapply Forall_impl; [|exact Hsmall]. intros c Hc. cbv beta in *.
+        rewrite Z.abs_mul, (Z.abs_eq (2^shift)) by (apply Z.pow_nonneg; lia). lia. }
+      assert (Hold: existsb num_big64 (map NI xs) || (64 <=? nw fd) ||
+                    match conv_factor_int fd true with Some k => (2^63 <=? k) || existsb (fun z => 2^63 <=? Z.abs z * k) xs | None => false end = false).
+      { unfold conv_factor_int. rewrite existsb_map.
         replace (64 <=? nw fd) with false by lia. replace (2^63 <=? 1) with false by reflexivity. cbn [orb].
-        assert (2^63 < 2^64) by (apply pow2_lt; lia).
         rewrite existsb_false, existsb_false; [reflexivity| |].
-        - rewrite Forall_map. eapply Forall_impl; [|exact Hsmall]. intros c Hc. cbv beta in *.
-          rewrite Z.abs_mul, (Z.abs_eq (2^shift)) by (apply Z.pow_nonneg; lia). lia.
-        - eapply Forall_impl; [|exact Hsmall]. intros c Hc. cbv beta in *. unfold num_big64.
-          assert (Z.abs (c * 2^shift) < 2^63) by (rewrite Z.abs_mul, (Z.abs_eq (2^shift)) by (apply Z.pow_nonneg; lia); lia). lia. }
-      rewrite Hobj.
+        - eapply Forall_impl; [|exact Hxs]. intros z Hz. cbv beta in *. lia.
+        - eapply Forall_impl; [|exact Hxs]. intros z Hz. cbv beta in *. unfold num_big64. lia. }
       destruct (conv_vdt rt shift) eqn:Evd.
       * (* cast to int: identity *)
+        assert (Hobj: obj_path fd true (AI64 xs) VInt = false).
+        { rewrite obj_path_AI64_int, exact_factor_raw, Hold. reflexivity. }
+        rewrite (set_val_real_eq _ _ _ _ _ _ _ Hobj (exact_factor_raw _ _)).
         cbn [astype_vd bind].
         destruct (mapM_char (elem_pipe fd r o true false) (fun x => overflow o fd (match x with NI z => z | _ => 0 end))
                    (fun x => cmax fd <? (match x with NI z => z | _ => 0 end)) (fun x => (match x with NI z => z | _ => 0 end) <? cmin fd)
@@ -146,10 +159,30 @@ Proof.
         -- apply map_ext. intros c. rewrite Hsc, Hrd. reflexivity.
         -- apply existsb_ext; intros c; rewrite Hsc, Hrd; reflexivity.
         -- apply existsb_ext; intros c; rewrite Hsc, Hrd; reflexivity.
-      * (* cast to float: exact because the rescaled codes are below 2^53 *)
-        assert (Hrt: rt = RFxpInput VFloat).
-        { unfold conv_vdt in Evd. replace (shift <? 0) with false in Evd by lia. destruct rt as [|[|]]; try discriminate; reflexivity. }
-        subst rt. cbn [vd_ok] in Hvd. specialize (Hvd ltac:(lia)).
+      * (* a float value type *)
+        destruct (existsb (fun z => 2^53 <=? Z.abs z) xs) eqn:E53.
+        { (* some rescaled code has more than 53 bits: Python integers, nothing is cast to float *)
+          pose proof (obj_path_AI64_float_big fd xs E53) as Hobj.
+          rewrite (set_val_real_eq _ _ _ _ _ _ _ Hobj (exact_factor_raw _ _)). cbn [arr_nums bind].
+          destruct (mapM_char (elem_pipe fd r o true true) (fun x => overflow o fd (match x with NI z => z | _ => 0 end))
+                     (fun x => cmax fd <? (match x with NI z => z | _ => 0 end)) (fun x => (match x with NI z => z | _ => 0 end) <? cmin fd)
+                     (map NI xs)) as (rs & Hrs & Hc & Hg & Hl).
+          { intros x Hx. apply in_map_iff in Hx. destruct Hx as (z & <- & _). apply elem_pipe_raw_obj_int. lia. }
+          rewrite Hrs. cbn [bind]. eexists. split; [reflexivity|]. cbn [w_codes w_ovf w_unf].
+          rewrite Hc, Hg, Hl. unfold xs. rewrite ?map_map, ?existsb_map. repeat split.
+          - apply map_ext. intros c. rewrite Hsc, Hrd. reflexivity.
+          - apply existsb_ext; intros c; rewrite Hsc, Hrd; reflexivity.
+          - apply existsb_ext; intros c; rewrite Hsc, Hrd; reflexivity. }
+        (* all rescaled codes below 2^53: the cast to float is exact *)
+        assert (Hvd: Forall (fun c => Z.abs c * 2^shift < 2^53) codes).
+        { apply Forall_forall. intros c Hin. destruct (2^53 <=? Z.abs c * 2^shift) eqn:E; [|lia]. exfalso.
+          assert (existsb (fun z => 2^53 <=? Z.abs z) xs = true).
+          { unfold xs. rewrite existsb_map. apply existsb_exists. exists c. split; [exact Hin|].
+            rewrite Z.abs_mul, (Z.abs_eq (2^shift)) by (apply Z.pow_nonneg; lia). exact E. }
+          congruence. }
+        assert (Hobj: obj_path fd true (AI64 xs) VFloat = false).
+        { rewrite (obj_path_AI64_small _ _ _ _ E53), Hold. reflexivity. }
+        rewrite (set_val_real_eq _ _ _ _ _ _ _ Hobj (exact_factor_raw _ _)).
         cbn [astype_vd bind].
         destruct (mapM_char (elem_pipe fd r o true false) (fun x => overflow o fd (match x with NF (Fin z _) => z | _ => 0 end))
                    (fun x => cmax fd <? (match x with NF (Fin z _) => z | _ => 0 end)) (fun x => (match x with NF (Fin z _) => z | _ => 0 end) <? cmin fd)
@@ -176,15 +209,16 @@ Proof.
     + (* same fraction length: the codes themselves *)
       assert (Hrd: forall c, round_dy r {| dm := c; de := shift |} = c).
       { intros c. rewrite round_dy_int by lia. replace shift with 0 by lia. rewrite Z.pow_0_r. lia. }
-      unfold set_val_real.
-      assert (2^52 < 2^63) by (apply pow2_lt; lia). assert (2^63 < 2^64) by (apply pow2_lt; lia).
-      assert (Hobj: obj_path fd true (AI64 codes) = false).
-      { unfold obj_path, conv_factor_int. cbn [arr_nums]. rewrite existsb_map.
+      assert (2^52 < 2^53) by (apply pow2_lt; lia). assert (2^52 < 2^63) by (apply pow2_lt; lia). assert (2^63 < 2^64) by (apply pow2_lt; lia).
+      assert (E53: existsb (fun z => 2^53 <=? Z.abs z) codes = false).
+      { apply absmax_small_ints. eapply Forall_impl; [|exact Hb]. intros c Hc. cbv beta in *. lia. }
+      assert (Hobj: obj_path fd true (AI64 codes) (conv_vdt rt shift) = false).
+      { rewrite (obj_path_AI64_small _ _ _ _ E53). unfold conv_factor_int. rewrite existsb_map.
         replace (64 <=? nw fd) with false by lia. replace (2^63 <=? 1) with false by reflexivity. cbn [orb].
         rewrite existsb_false, existsb_false; [reflexivity| |].
         - eapply Forall_impl; [|exact Hb]. intros c Hc. cbv beta in *. lia.
         - eapply Forall_impl; [|exact Hb]. intros c Hc. cbv beta in *. unfold num_big64. lia. }
-      rewrite Hobj.
+      rewrite (set_val_real_eq _ _ _ _ _ _ _ Hobj (exact_factor_raw _ _)).
       destruct (conv_vdt rt shift) eqn:Evd.
       * cbn [astype_vd bind].
         destruct (mapM_char (elem_pipe fd r o true false) (fun x => overflow o fd (match x with NI z => z | _ => 0 end))
@@ -197,7 +231,6 @@ Proof.
         -- apply existsb_ext; intros c; rewrite Hsc, Hrd; reflexivity.
         -- apply existsb_ext; intros c; rewrite Hsc, Hrd; reflexivity.
       * cbn [astype_vd bind].
-        assert (2^52 < 2^53) by (apply pow2_lt; lia).
         assert (Hcast: map (fun z => NF (f64_of_Z z)) codes = map (fun z => NF (Fin z 0)) codes).
         { apply map_ext_in. intros z Hz. rewrite Forall_forall in Hb. specialize (Hb z Hz). cbv beta in Hb.
           rewrite f64_of_Z_exact; [reflexivity|lia]. }
@@ -219,20 +252,23 @@ Proof.
     + (* fewer fraction bits: float64 raw values, rounded by the destination's mode *)
       assert (Hneg: shift < 0) by lia.
       assert (2^52 < 2^53) by (apply pow2_lt; lia).
+      assert (E53: existsb (fun c => 2^53 <=? Z.abs c) codes = false).
+      { apply absmax_small_ints. eapply Forall_impl; [|exact Hb]. intros c Hc. cbv beta in *. lia. }
+      rewrite E53.
       assert (Hvals: map (fun c => f64_mul_pow2 (f64_of_Z c) shift) codes = map (fun c => Fin c shift) codes).
       { apply map_ext_in. intros c Hc. rewrite Forall_forall in Hb. specialize (Hb c Hc). cbv beta in Hb.
         rewrite f64_of_Z_exact by lia. cbn [f64_mul_pow2]. replace (0 + shift) with shift by lia.
         apply rnd64_exact. pose proof (bitlen_le c 53 ltac:(lia) ltac:(lia)). pose proof (bitlen_nonneg c). unfold fits53. lia. }
-      rewrite Hvals. unfold set_val_real.
+      rewrite Hvals.
       assert (Evd: conv_vdt rt shift = VFloat) by (unfold conv_vdt; replace (shift <? 0) with true by lia; reflexivity).
       rewrite Evd.
-      assert (Hobj: obj_path fd true (AF64 (map (fun c => Fin c shift) codes)) = false).
-      { unfold obj_path, conv_factor_int. cbn [arr_nums]. rewrite map_map, existsb_map.
+      assert (Hobj: obj_path fd true (AF64 (map (fun c => Fin c shift) codes)) VFloat = false).
+      { rewrite obj_path_AF64. rewrite map_map, existsb_map.
         replace (64 <=? nw fd) with false by lia. rewrite !orb_false_r.
         apply existsb_false. eapply Forall_impl; [|exact Hb]. intros c Hc. cbv beta in *.
         unfold num_big64, f64_floor_Z. replace (0 <=? shift) with false by lia.
         assert (0 < 2^(- shift)) by (apply pow2_pos; lia). assert (2^53 < 2^64) by (apply pow2_lt; lia). nia. }
-      rewrite Hobj. cbn [astype_vd bind]. rewrite map_map.
+      rewrite (set_val_real_eq _ _ _ _ _ _ _ Hobj (exact_factor_raw _ _)). cbn [astype_vd bind]. rewrite map_map.
       destruct (mapM_char (elem_pipe fd r o true false)
                  (fun x => overflow o fd (round_dy r (match x with NF (Fin m e) => {| dm := m; de := e |} | _ => {| dm := 0; de := 0 |} end)))
                  (fun x => cmax fd <? round_dy r (match x with NF (Fin m e) => {| dm := m; de := e |} | _ => {| dm := 0; de := 0 |} end))
@@ -257,7 +293,7 @@ Fixpoint chain_spec (fs : fmt) (codes : list Z) (steps : list cstep) : fmt * lis
 Fixpoint chain_ok (fs : fmt) (codes : list Z) (steps : list cstep) : Prop :=
   match steps with
   | [] => True
-  | s :: t => core_fmt (cs_fmt s) /\ vd_ok (cs_route s) (nf (cs_fmt s) - nf fs) codes /\
+  | s :: t => core_fmt (cs_fmt s) /\
               chain_ok (cs_fmt s) (map (conv_spec fs (cs_fmt s) (cs_r s) (cs_o s)) codes) t
   end.
 
@@ -269,9 +305,9 @@ Theorem convert_chain_core steps : forall fs codes,
   convert_chain fs codes steps = Ok (chain_spec fs codes steps).
 Proof.
   induction steps as [|s t IH]; intros fs codes Hfs Hr Hok; [reflexivity|].
-  cbn [chain_ok] in Hok. destruct Hok as (Hfd & Hvd & Hrest).
+  cbn [chain_ok] in Hok. destruct Hok as (Hfd & Hrest).
   cbn [convert_chain chain_spec].
-  destruct (convert_core (cs_route s) fs (cs_fmt s) (cs_r s) (cs_o s) codes Hfs Hfd Hr Hvd) as (w & Hw & Hc & _).
+  destruct (convert_core (cs_route s) fs (cs_fmt s) (cs_r s) (cs_o s) codes Hfs Hfd Hr) as (w & Hw & Hc & _).
   rewrite Hw. cbn [bind]. rewrite Hc. apply IH; [exact Hfd | | exact Hrest].
   apply conv_spec_in_range. destruct Hfd; lia.
 Qed.
